@@ -222,20 +222,29 @@ Qed.
 
 Lemma backend_ok_model d q a now bv u :
   oc_backend (serve' d q a now) = Some bv -> oc_upstream (serve' d q a now) = Some u ->
-  Signer.conn_safe Signer_gen_proofs.g_protected (Signer.r_headers (signer_request q (bk_handler bv))) = true ->
-  Signer.cl_canonical (signer_request q (bk_handler bv)) = true ->
-  backend_ok re_match re_replace lower opens d u q a now (model_obs d q a now) (bobs_of d u (rq_host q) bv) = true.
+  backend_ok re_match re_replace lower opens (applic_of q (serve' d q a now)) d u q a now (model_obs d q a now)
+             (bobs_of d u (rq_host q) bv) = true.
 Proof.
-  intros Hb Hu Hconn Hcl.
+  intros Hb Hu.
   destruct (backend_reached_only_if re_match re_replace lower opens d q a now bv Hb)
-    as [u' [Hr [_ [Hu' [_ [Ht [Hh [_ [_ [_ [_ [Hroute [Hmed [_ F4]]]]]]]]]]]]]].
+    as [u' [Hr [_ [Hu' [_ [Ht [Hh [_ [_ [_ [_ [Hroute [Hmed [F3 F4]]]]]]]]]]]]]].
   rewrite Hu in Hu'. inversion Hu'; subst u'. clear Hu'.
-  destruct (backend_signature_verifies re_match re_replace lower opens d q a now bv u Hb Hu Hconn Hcl)
-    as (_ & _ & _ & E4 & Ersa & Ehmac).
   destruct (backend_identity_sharp d q a now bv u Hb Hu) as [[pre Hhand] Hsharp].
+  unfold applic_of. rewrite Hb.
+  set (rs := signer_request q (bk_handler bv)).
+  set (gsig := Signer.conn_safe protected_names (Signer.r_headers rs) && Signer.cl_canonical rs).
+  assert (Esig : gsig = true ->
+     (up_skip_sign u = false -> forall sk, dp_signer d = Some sk ->
+        Signer.verify_rsa Signer_gen_proofs.g_cov (Signer.published_certs (sg_cfg re_replace d u (rq_host q))) (bk_req bv) = Some true /\
+        Signer.r_kid (bk_req bv) = Some (Signer.KeyId (Signer.pub sk))) /\
+     (up_skip_sign u = false -> forall key, up_hmac u = Some key ->
+        Signer.verify_hmac Signer_gen_proofs.g_covh key (bk_req bv) = 3)).
+  { intros Hg. unfold gsig in Hg. apply andb_true_iff in Hg as [Hconn Hcl].
+    destruct (backend_signature_verifies re_match re_replace lower opens d q a now bv u Hb Hu Hconn Hcl)
+      as (_ & _ & _ & _ & Ersa & Ehmac). split; assumption. }
   set (o := ProxyCore.authenticate lower now (pc_cfg d u) (pc_pol u) (rq_host q) (scookie d q) (an_auth a)) in *.
   unfold backend_ok.
-  cbn [bobs_of ob_target ob_host ob_headers ob_cookies ob_rsa ob_kid ob_hmac].
+  cbn [bobs_of ob_target ob_host ob_headers ob_cookies ob_rsa ob_kid ob_hmac ap_sig ap_hop].
   change (existsb (fun p => re_match p (rq_path q)) (Hostmux.u_skip (up_hm u))) with (skip_hit re_match u q).
   assert (Etarget : bk_target bv = exp_target re_replace (rq_host q) u) by (rewrite Ht; reflexivity).
   rewrite <- Etarget, str_eqb_refl.
@@ -258,23 +267,26 @@ Proof.
                         (cookie_pairs (Signer.hvals Signer.cookie_h (Signer.r_headers (bk_req bv)))) = true).
   { apply forallb_forall. intros nv Hin. unfold cookie_pairs in Hin. apply in_map_iff in Hin as [c [<- Hc]].
     apply negb_true_iff, str_eqb_neq. exact (F4 c Hc). }
-  assert (Ersa' : negb (rsa_on d u) ||
+  assert (Ersa' : negb gsig || negb (rsa_on d u) ||
                   (option_eqb bool_eqb (Signer.verify_rsa cov (Signer.published_certs (sg_cfg re_replace d u (rq_host q))) (bk_req bv)) (Some true) &&
                    Signer.kid_published (Signer.published_certs (sg_cfg re_replace d u (rq_host q))) (bk_req bv)) = true).
-  { unfold rsa_on. destruct (up_skip_sign u) eqn:Esk; [reflexivity|]. destruct (dp_signer d) as [sk|] eqn:Esg; [|reflexivity].
+  { destruct gsig eqn:Eg; [|reflexivity]. destruct (Esig eq_refl) as [Ersa _]. cbn [negb orb].
+    unfold rsa_on. destruct (up_skip_sign u) eqn:Esk; [reflexivity|]. destruct (dp_signer d) as [sk|] eqn:Esg; [|reflexivity].
     cbn [negb andb orb]. destruct (Ersa eq_refl sk eq_refl) as [V K].
     change cov with Signer_gen_proofs.g_cov. rewrite V. cbn [option_eqb bool_eqb Bool.eqb andb].
     unfold Signer.kid_published. rewrite K. unfold Signer.published_certs. cbn [sg_cfg Signer.c_signer]. rewrite Esg.
     cbn. rewrite N.eqb_refl. reflexivity. }
-  assert (Ehmac' : negb (hmac_on u) ||
+  assert (Ehmac' : negb gsig || negb (hmac_on u) ||
                    N.eqb (match up_hmac u with Some k => Signer.verify_hmac covh k (bk_req bv) | None => 0 end) 3 = true).
-  { unfold hmac_on. destruct (up_skip_sign u) eqn:Esk; [reflexivity|]. destruct (up_hmac u) as [key|] eqn:Ek; [|reflexivity].
+  { destruct gsig eqn:Eg; [|reflexivity]. destruct (Esig eq_refl) as [_ Ehmac]. cbn [negb orb].
+    unfold hmac_on. destruct (up_skip_sign u) eqn:Esk; [reflexivity|]. destruct (up_hmac u) as [key|] eqn:Ek; [|reflexivity].
     cbn [negb andb orb]. change covh with Signer_gen_proofs.g_covh. rewrite (Ehmac eq_refl key eq_refl). reflexivity. }
   rewrite Eck, Ersa', Ehmac'. rewrite !andb_true_r.
   (* C03 identity *)
   assert (Hv : forall k, In k ReqHeaders.identity_keys ->
-               Signer.hvals k (Signer.r_headers (bk_req bv)) = ReqHeaders.h_get k (bk_handler bv)).
-  { intros k Hk. apply E4. apply in_g_cov_identity. exact Hk. }
+               Signer.hvals k (Signer.r_headers (bk_req bv)) =
+               if mem_str k (Signer.hop_keys (Signer.r_headers rs)) then [] else ReqHeaders.h_get k (bk_handler bv)).
+  { intros k Hk. exact (F3 k Hk). }
   assert (K1 : In ReqHeaders.k_xfu ReqHeaders.identity_keys) by (cbn; tauto).
   assert (K2 : In ReqHeaders.k_xfe ReqHeaders.identity_keys) by (cbn; tauto).
   assert (K3 : In ReqHeaders.k_xfg ReqHeaders.identity_keys) by (cbn; tauto).
@@ -285,7 +297,8 @@ Proof.
   unfold identity_expected.
   destruct (skip_hit re_match u q) eqn:Ew.
   - (* whitelisted: no identity *)
-    rewrite Hhand. rewrite !handler_identity_none by assumption. reflexivity.
+    rewrite Hhand. rewrite !handler_identity_none by assumption.
+    repeat match goal with |- context [if ?b then [] else []] => destruct b end; reflexivity.
   - destruct (Hsharp eq_refl) as [Herr Hsess].
     destruct (auth_ok_has_session _ _ _ _ _ _ Herr) as [s'' Hs'']. fold o in Hs''.
     rewrite Hs'' in Hhand. rewrite Hhand.
@@ -308,10 +321,9 @@ Proof.
       cbn [model_obs ob_session]. destruct (visible_session _ _ _) as [| |s'] eqn:Ev; try (rewrite Eag; reflexivity).
       apply visible_saved in Ev. rewrite Hsess in Ev. apply auth_saved_is_asserted in Ev. fold o in Ev. rewrite Hs'' in Ev.
       inversion Ev; reflexivity. }
-    rewrite Eexp;
-      cbn [rh_session ReqHeaders.s_user ReqHeaders.s_email ReqHeaders.s_groups];
-      rewrite !(proj2 (strs_eqb_eq _ _) eq_refl); cbn [andb]; try reflexivity;
-      apply strs_eqb_eq; unfold ReqHeaders.allowed_token, ReqHeaders.token_enabled, injected; reflexivity.
+    rewrite Eexp. cbn [rh_session ReqHeaders.s_user ReqHeaders.s_email ReqHeaders.s_groups].
+    change (ReqHeaders.allowed_token (rh_cfg d u) (rh_session s'')) with (injected u ReqHeaders.k_xfat).
+    rewrite !(proj2 (strs_eqb_eq _ _) eq_refl). reflexivity.
 Qed.
 
 
@@ -348,21 +360,18 @@ Qed.
 Lemma logging_strip_resp st h : logging_strip (RespHeaders.Resp st h) = RespHeaders.Resp st (stripped h).
 Proof. reflexivity. Qed.
 
-(* ---- the guards: those of the composed theorems ---- *)
+(* ---- what is left as a hypothesis: C18's residual guard, wherever the hardening clause applies.
+        (The guards of INT_signature_verifies and INT_every_response_hardened are part of the monitor itself:
+        outside them the clause is not applied; the hop-by-hop exception is the monitor's own identity clause.) ---- *)
 Definition guards (d : deployment) (q : request) (a : answers) (now : Z) : Prop :=
-  (* C18: Corr_C18's guard (no 1xx on a flush upstream; bytes < 256 and a non-empty Host for the redirect shape) *)
-  (forall u, route_ext re_match (dp_ups d) (rq_host q) = Some u ->
-     Corr_C18_proofs.monitor_guard (rs_cfg d u) (rs_request q) (ro_out (router' d u q a now)) = true) /\
-  (* C03-K3 / C12-K1 and C12-K2, on the request as it is when it is signed *)
-  (forall bv, oc_backend (serve' d q a now) = Some bv ->
-     Signer.conn_safe Signer_gen_proofs.g_protected (Signer.r_headers (signer_request q (bk_handler bv))) = true /\
-     Signer.cl_canonical (signer_request q (bk_handler bv)) = true).
+  forall u, route_ext re_match (dp_ups d) (rq_host q) = Some u -> hardening_applies u a = true ->
+    Corr_C18_proofs.monitor_guard (rs_cfg d u) (rs_request q) (ro_out (router' d u q a now)) = true.
 
 Theorem monitor_accepts_model d q a now :
   guards d q a now ->
-  holds re_match re_replace lower opens d q a now (model_obs d q a now) = true.
+  holds re_match re_replace lower opens (applic_of q (serve' d q a now)) d q a now (model_obs d q a now) = true.
 Proof.
-  intros [G1 G2]. unfold holds.
+  intros G1. unfold holds.
   destruct (serve_cases re_match re_replace lower opens d q a now) as [[Ep E]|[[Ep [Hr E]]|[Ep [u [Hr E]]]]].
   - rewrite Ep, str_eqb_refl. unfold model_obs. rewrite E. reflexivity.
   - apply str_eqb_neq in Ep. rewrite Ep, exp_route_is_route_ext, Hr. unfold model_obs. rewrite E. reflexivity.
@@ -372,17 +381,18 @@ Proof.
     { rewrite E. unfold ProxyAll.handle_up. destruct (redirected d q); reflexivity. }
     (* the backend clause *)
     assert (Cb : Nat.leb (length (ob_seen (model_obs d q a now))) 1 &&
-                 forallb (backend_ok re_match re_replace lower opens d u q a now (model_obs d q a now)) (ob_seen (model_obs d q a now)) = true).
+                 forallb (backend_ok re_match re_replace lower opens (applic_of q (serve' d q a now)) d u q a now (model_obs d q a now))
+                         (ob_seen (model_obs d q a now)) = true).
     { cbn [model_obs ob_seen]. rewrite Eup. destruct (oc_backend (serve' d q a now)) as [bv|] eqn:Eb; [|reflexivity].
-      cbn [length Nat.leb forallb andb]. destruct (G2 bv eq_refl) as [Gc Gl].
-      rewrite (backend_ok_model d q a now bv u Eb Eup Gc Gl). reflexivity. }
+      cbn [length Nat.leb forallb andb].
+      rewrite (backend_ok_model d q a now bv u Eb Eup). reflexivity. }
     (* the client's response *)
     assert (Ecl : oc_client (serve' d q a now) =
                   logging_strip (Corr_C18.model (rs_cfg d u) (rs_request q) (ro_out (router' d u q a now)))).
     { rewrite E. apply handle_up_client. }
-    pose proof (Corr_C18_proofs.monitor_accepts_model (rs_cfg d u) (rs_request q) (ro_out (router' d u q a now)) (G1 u Hr)) as M.
+    pose proof (fun Hg => Corr_C18_proofs.monitor_accepts_model (rs_cfg d u) (rs_request q) (ro_out (router' d u q a now)) (G1 u Hr Hg)) as M.
     (* hardening + redirect *)
-    assert (Ch : (negb (ob_responded (model_obs d q a now)) ||
+    assert (Ch : (negb (ob_responded (model_obs d q a now)) || negb (hardening_applies u a) ||
                   (Corr_C18.three_ok (rs_cfg d u) (ob_status (model_obs d q a now)) (ob_hdr (model_obs d q a now)) &&
                    Corr_C18.hsts_ok (rs_cfg d u) (ob_hdr (model_obs d q a now)) &&
                    Corr_C18.cookies_ok (rs_cfg d u) (rs_request q) (ob_set (model_obs d q a now)))) &&
@@ -394,14 +404,20 @@ Proof.
       cbn [model_obs ob_responded ob_status ob_hdr ob_set]. rewrite Ecl.
       destruct (Corr_C18.model (rs_cfg d u) (rs_request q) (ro_out (router' d u q a now))) as [st h|] eqn:Em.
       - rewrite logging_strip_resp. cbn [negb orb].
-        unfold Corr_C18.holds_proxy in M. cbn [negb orb] in M.
-        apply andb_true_iff in M as [M Mck]. apply andb_true_iff in M as [M Mred]. apply andb_true_iff in M as [M3 Mh].
-        rewrite (three_ok_ext (rs_cfg d u) st (Corr_C18_proofs.proj_hdr (stripped h)) (Corr_C18_proofs.proj_hdr h)).
-        2:{ intros k Hk. rewrite !Corr_C18_proofs.hget_proj, stripped_hget; [reflexivity|].
-            unfold Corr_C18.three_keys in Hk. cbn [In] in Hk. destruct Hk as [<-|[<-|[<-|[]]]]; discriminate. }
-        rewrite (hsts_ok_ext (rs_cfg d u) (Corr_C18_proofs.proj_hdr (stripped h)) (Corr_C18_proofs.proj_hdr h))
-          by (rewrite !Corr_C18_proofs.hget_proj, stripped_hget; [reflexivity | discriminate]).
-        rewrite stripped_hget by discriminate. rewrite M3, Mh, Mck. cbn [andb].
+        assert (Hard : negb (hardening_applies u a) ||
+                  (Corr_C18.three_ok (rs_cfg d u) st (Corr_C18_proofs.proj_hdr (stripped h)) &&
+                   Corr_C18.hsts_ok (rs_cfg d u) (Corr_C18_proofs.proj_hdr (stripped h)) &&
+                   Corr_C18.cookies_ok (rs_cfg d u) (rs_request q) (RespHeaders.hget RespHeaders.k_set_cookie (stripped h))) = true).
+        { destruct (hardening_applies u a) eqn:Eha; [|reflexivity]. cbn [negb orb]. specialize (M eq_refl).
+          unfold Corr_C18.holds_proxy in M. cbn [negb orb] in M.
+          apply andb_true_iff in M as [M Mck]. apply andb_true_iff in M as [M Mred]. apply andb_true_iff in M as [M3 Mh].
+          rewrite (three_ok_ext (rs_cfg d u) st (Corr_C18_proofs.proj_hdr (stripped h)) (Corr_C18_proofs.proj_hdr h)).
+          2:{ intros k Hk. rewrite !Corr_C18_proofs.hget_proj, stripped_hget; [reflexivity|].
+              unfold Corr_C18.three_keys in Hk. cbn [In] in Hk. destruct Hk as [<-|[<-|[<-|[]]]]; discriminate. }
+          rewrite (hsts_ok_ext (rs_cfg d u) (Corr_C18_proofs.proj_hdr (stripped h)) (Corr_C18_proofs.proj_hdr h))
+            by (rewrite !Corr_C18_proofs.hget_proj, stripped_hget; [reflexivity | discriminate]).
+          rewrite stripped_hget by discriminate. rewrite M3, Mh, Mck. reflexivity. }
+        rewrite Hard. cbn [andb].
         destruct (redirected d q) eqn:Hred; [|reflexivity]. cbn [negb orb]. rewrite (Eseen eq_refl). cbn [nilb andb].
         (* the redirect: status 301 *)
         unfold Corr_C18.model, RespHeaders.proxy_handle in Em. unfold redirected in Hred.
@@ -423,7 +439,15 @@ End Accept.
 Example guards_satisfiable :
   guards Ex.ex_match Ex.ex_replace lower_ascii Ex.ex_opens Ex.dep Ex.q_app Ex.quiet 1000%Z.
 Proof.
-  split.
-  - intros u Hr. vm_compute in Hr. inversion Hr; subst u. vm_compute. reflexivity.
-  - intros bv Hb. vm_compute in Hb. inversion Hb; subst bv. vm_compute. split; reflexivity.
+  intros u Hr _. vm_compute in Hr. inversion Hr; subst u. vm_compute. reflexivity.
+Qed.
+
+(* ... and on that request every guarded clause of the monitor does apply (nothing is skipped) *)
+Example clauses_apply_nonvacuous :
+  ap_sig (applic_of Ex.q_app (Ex.run Ex.q_app)) = true /\
+  (forall k, In k ReqHeaders.identity_keys -> ap_hop (applic_of Ex.q_app (Ex.run Ex.q_app)) k = false) /\
+  hardening_applies Ex.up_app Ex.quiet = true.
+Proof.
+  split; [vm_compute; reflexivity|]. split; [|reflexivity].
+  intros k Hk. unfold ReqHeaders.identity_keys in Hk. cbn [In] in Hk. destruct Hk as [<-|[<-|[<-|[<-|[]]]]]; vm_compute; reflexivity.
 Qed.
